@@ -380,6 +380,24 @@ def bounded(ctx, b):
         # every structured case once more with doubled control codes
         cases.append((mode, True, [[(1, ROWS_TEXT[:33]), (5, ROWS_TEXT[:5])]], False, True))
         cases.append((mode, False, [[(14, ROWS_TEXT[:32])], [(15, ROWS_TEXT[:33])]], False, True))
+    # an over-long line in a stream that ALSO has a caption shown for a single frame: the line-length error, naming the
+    # line, is what the statement promises - whatever else is wrong with the stream
+    for dbl_, long_first in itertools.product([False, True], repeat=2):
+        def both(dbl_=dbl_, long_first=long_first):
+            long_row, short_row = ROWS_TEXT[:34], "OK"
+            flash = [C.ctrl("ENM"), C.ctrl("RCL"), C.pac(15)] + row_words(long_row if long_first else short_row) + [C.ctrl("EOC"), C.ctrl("EDM")]
+            steady = [C.ctrl("ENM"), C.ctrl("RCL"), C.pac(15)] + row_words(short_row if long_first else long_row) + [C.ctrl("EOC")]
+            doc = C.scc_document([(C.timecode(30), flash), (C.timecode(150), steady), (C.timecode(300), [C.ctrl("EDM")])])
+            if dbl_:
+                doc = doubled(doc)
+            try:
+                shared.read(doc)
+            except CaptionLineLengthError as e:
+                return f"{long_row} - Length 34" in str(e), {"raised": str(e)[:300]}
+            except Exception as e:
+                return False, {"raised_instead_of_the_line_length_error": repr(e)[:300]}
+            return False, {"returned_silently": long_row}
+        b.guard(("long_and_flash", dbl_, long_first), both, sample={"case": "over-long line and a one-frame caption in one stream", "doubled": dbl_, "long_line_in_the_flash_caption": long_first})
     for mode, term, sets, *rest in cases:
         cr = bool(rest and rest[0])
         dbl = bool(len(rest) > 1 and rest[1])
